@@ -31,7 +31,7 @@ ENCRYPT_OPS = {  # class -> (roles of the positional parameters, ESK packet clas
 }
 
 
-def encrypt_operation_paths(prog, cls, given):
+def encrypt_operation_paths(prog, cls, given, already=False):
     """The returning paths of <cls>.encrypt on a not yet encrypted message, with the session-key packet call, the container call
     and what reaches them.  Parameters are bound by position, the packets are recognised by their CLASS (not by the local that holds
     them): -> (fi, [dict(state, esk, data, esk_key, esk_alg, data_key, data_alg, plaintext, esk_obj)])."""
@@ -40,7 +40,7 @@ def encrypt_operation_paths(prog, cls, given):
     fi = prog.method('pgpy.pgp', cls, 'encrypt')
     args = {'sessionkey': Sym('sessionkey', nonnull=True) if given else Const(None)}
     outs = taint.run_roles(prog, fi, roles, kwarg='prefs', args=args,
-                           bind={'self.is_encrypted': Const(False), 'message.is_encrypted': Const(False)})
+                           bind={'self.is_encrypted': Const(already), 'message.is_encrypted': Const(already)})
     res = []
     for s in outs:
         if s.raised:
@@ -48,6 +48,8 @@ def encrypt_operation_paths(prog, cls, given):
         esk = [c for c in s.calls if c[0].endswith('.encrypt_sk') and taint.obj_of_class(s, c[0][:-len('.encrypt_sk')], esk_cls)]
         data = [c for c in s.calls if c[0].endswith('.encrypt') and taint.obj_of_class(s, c[0][:-len('.encrypt')], 'IntegrityProtectedSKEData', 'SKEData')]
         d = {'state': s, 'esk': esk, 'data': data, 'subject': subject}
+        if len(esk) == 1:
+            d['esk_obj'] = esk[0][0][:-len('.encrypt_sk')]
         if len(esk) == 1 and len(data) == 1:
             d['esk_obj'] = esk[0][0][:-len('.encrypt_sk')]
             ocls = taint.objects(s)[d['esk_obj']].cls
@@ -100,6 +102,21 @@ def check_operation_wiring(rep, prog, rid):
                 want = '%s.__bytes__()' % d['subject']
                 rep.check(pt in (want, want.replace('__bytes__', '__bytearray__'), d['subject']), rid, '%s.encrypt' % cls, '%s: plaintext %s' % (scen, pt),
                           'the container holds the whole serialised message', where=fi.where, expected=want, found=pt, scenario=scen)
+
+
+def check_readdressing(rep, prog, rid):
+    """Encrypting an already encrypted message adds a recipient: the result is that message plus the new session-key packet."""
+    from . import taint
+    for cls in ('PGPMessage', 'PGPKey'):
+        fi, paths = encrypt_operation_paths(prog, cls, True, already=True)
+        if not paths:
+            raise AnalysisError('%s.encrypt: no returning path for an already encrypted message' % cls)
+        for d in paths:
+            ret = render(d['state'].ret) if d['state'].ret is not None else ''
+            ok = len(d['esk']) == 1 and not d['data'] and taint.mentions(ret, d['esk_obj']) and taint.mentions(ret, d['subject'])
+            rep.check(ok, rid, '%s.encrypt' % cls, 'already encrypted: returns %s' % ret[:120],
+                      'for a message that is already encrypted the result must be that message together with the new session-key packet',
+                      where=fi.where, expected='%s | <session-key packet>' % d['subject'], found=ret, scenario='already encrypted')
 
 
 def _sessionkey_universe(prog):
@@ -496,8 +513,8 @@ def check_cipher_tables(rep, prog, rid):
                     if v not in rets:
                         rets.append(v)
             if len(rets) > 1:
-                raise AnalysisError('SymmetricKeyAlgorithm.%s: cannot decide the value for %s (%s)' % (meth, m, rets[:3]))
-            if rets and rets[0] is not None:
+                out[m] = 'undecided: %s' % ' | '.join(map(str, rets[:3]))       # compared with the expected table like any other value
+            elif rets and rets[0] is not None:
                 out[m] = rets[0]
         return f, out
     want_ks = {'IDEA': 128, 'TripleDES': 192, 'CAST5': 128, 'Blowfish': 128, 'AES128': 128, 'AES192': 192, 'AES256': 256,
@@ -524,6 +541,7 @@ def check_cipher_tables(rep, prog, rid):
         want_bs = {'IDEA': 64, 'TripleDES': 64, 'CAST5': 64, 'Blowfish': 64, 'AES128': 128, 'AES192': 128, 'AES256': 128, 'Twofish256': 128,
                    'Camellia128': 128, 'Camellia192': 128, 'Camellia256': 128}
         _, gotb = per_member('block_size')
+        gotb = {k: v for k, v in gotb.items() if k in want_bs or isinstance(v, int)}
         rets = gotb if all(isinstance(v, int) for v in gotb.values()) else rets
         rep.check(gotb == want_bs, rid, 'SymmetricKeyAlgorithm.block_size', 'block size %s' % rets,
                   'the block size of a cipher id must be that of the block cipher it is bound to', where=bf.where,
